@@ -18,25 +18,21 @@ func init() { register("C02", C02); register("C09", C09) }
 func (r *Run) callOrder(label string, fn *ssa.Function, stages []string) {
 	p := r.P
 	r.Fn(FuncName(fn))
-	find := func(name string) []ssa.CallInstruction {
-		var out []ssa.CallInstruction
-		Instrs(fn, func(_ *ssa.BasicBlock, _ int, in ssa.Instruction) {
-			ci, ok := in.(ssa.CallInstruction)
-			if !ok {
-				return
+	loops := Loops(fn)
+	// the calls fn performs: direct static calls, and the calls made by the entries of a local table of thin
+	// forwarding closures that a loop runs completely and in order (c02TableCalls in robust_c02.go)
+	events := c02CallEvents(fn, loops)
+	find := func(name string) []c02Event {
+		var out []c02Event
+		for _, e := range events {
+			if e.callee.Name() == name {
+				out = append(out, e)
 			}
-			if _, isGo := in.(*ssa.Go); isGo {
-				return
-			}
-			if c := ci.Common().StaticCallee(); c != nil && c.Name() == name {
-				out = append(out, ci)
-			}
-		})
+		}
 		return out
 	}
-	loops := Loops(fn)
 	// a precedes b: a's block dominates b's, or a sits in a loop that b is not part of and whose header dominates b
-	precedes := func(a, b ssa.Instruction) bool {
+	precedesIn := func(a, b ssa.Instruction) bool {
 		if instrBefore(a, b) {
 			return true
 		}
@@ -47,8 +43,20 @@ func (r *Run) callOrder(label string, fn *ssa.Function, stages []string) {
 		}
 		return false
 	}
+	precedes := func(a, b c02Event) bool {
+		if a.at == b.at {
+			// two entries of one table: the loop runs entry k, and entry k+1 only after entry k has returned
+			return a.loop != nil && a.sub < b.sub
+		}
+		if a.loop != nil {
+			// the table loop has run all its entries when b is reached over its exhaustion exit: b lies outside
+			// the loop, behind its header, and cannot be reached from an exit taken on an entry's error
+			return !a.loop.Blocks[b.at.Block()] && a.loop.Header.Dominates(b.at.Block()) && !a.errOut[b.at.Block()]
+		}
+		return precedesIn(a.at, b.at)
+	}
 	// b can run before a: some CFG path leads from b to a
-	reaches := func(b, a ssa.Instruction) bool {
+	reachesIn := func(b, a ssa.Instruction) bool {
 		if b.Block() == a.Block() && instrIndex(b) < instrIndex(a) {
 			return true
 		}
@@ -68,10 +76,17 @@ func (r *Run) callOrder(label string, fn *ssa.Function, stages []string) {
 		}
 		return false
 	}
-	var prev []ssa.CallInstruction
+	reaches := func(b, a c02Event) bool {
+		if a.at == b.at {
+			// entries of one table run in index order, once each (the table loop has no enclosing loop)
+			return b.sub < a.sub
+		}
+		return reachesIn(b.at, a.at)
+	}
+	var prev []c02Event
 	prevName := ""
 	for _, st := range stages {
-		var cur []ssa.CallInstruction
+		var cur []c02Event
 		optional := strings.Contains(st, "|")
 		for _, alt := range strings.Split(st, "|") {
 			cs := find(alt)
@@ -102,7 +117,7 @@ func (r *Run) callOrder(label string, fn *ssa.Function, stages []string) {
 		}
 	}
 	// a mandatory stage after an optional one must still follow the last mandatory stage
-	var lastMand []ssa.CallInstruction
+	var lastMand []c02Event
 	lastName := ""
 	for _, st := range stages {
 		if strings.Contains(st, "|") {
@@ -850,6 +865,12 @@ func (r *Run) partitionAndAgeing() {
 					}
 				}
 			}
+		}
+	}
+	// the same filter written with the standard library: slices.DeleteFunc(copy of the list, o == org)
+	for _, st := range FieldStores(rem, p.Field(PkgG, "Species", "Organisms")) {
+		if c02FilteredByIdentity(rtm, rem, st.Val, "recv.Organisms", 1) {
+			okRem = true
 		}
 	}
 	r.Check(okRem, "removeOrganism", p.Pos(rem.Pos()), "keeps every other organism, in order", "Species.removeOrganism does not rebuild the list from exactly the organisms different from its argument")
